@@ -837,6 +837,7 @@ def canonicalise(sources: dict[str, str]) -> tuple[Program, dict]:
     report['private_mixins_flattened'] = canon_decl.flatten_private_mixins(trees0)
     report['private_context_managers_desugared'] = canon_decl.desugar_private_context_managers(trees0)
     report['callable_classes_to_closures'] = canon_decl.callable_classes_to_closures(trees0)
+    report['search_helpers_inlined'] = canon_decl.inline_search_helpers(trees0)
     report['method_objects_dissolved'] = canon_decl.dissolve_method_objects(trees0)
     report['forwarding_adapters_dropped'] = canon_decl.drop_forwarding_adapters(trees0)
     report['private_holders_dissolved'] = canon_decl.dissolve_private_holders(trees0)
@@ -846,6 +847,7 @@ def canonicalise(sources: dict[str, str]) -> tuple[Program, dict]:
     for tree in trees0.values():
         for n in ast.walk(tree):
             if isinstance(n, (ast.FunctionDef, ast.AsyncFunctionDef)):
+                report['closing_iterators_unwrapped'] = report.get('closing_iterators_unwrapped', 0) + unwrap_closing_iterators(n)
                 report['filter_generators_unfolded'] = report.get('filter_generators_unfolded', 0) + unfold_filter_generators(n)
                 report['items_loops_to_keys'] = report.get('items_loops_to_keys', 0) + items_loops_to_keys(n)
                 report['isinstance_reraise_split'] = report.get('isinstance_reraise_split', 0) + split_isinstance_reraise(n)
@@ -1299,6 +1301,33 @@ def items_loops_to_keys(fn_node: ast.AST) -> int:
         ast.copy_location(asg, lp)
         lp.body.insert(0, asg)
         n += 1
+    if n:
+        ast.fix_missing_locations(fn_node)
+    return n
+
+
+# ----------------------------------------------------------------------------------------
+# P14: `with contextlib.closing(E) as it: for x in it: BODY`  ->  `for x in E: BODY`
+#      (closing only makes the implicit close of an abandoned iterator explicit; the loop is the same loop)
+
+def unwrap_closing_iterators(fn_node: ast.AST) -> int:
+    n = 0
+    for _owner, _fld, blk in _blocks(fn_node):
+        for i, st in enumerate(list(blk)):
+            if not (isinstance(st, ast.With) and len(st.items) == 1 and isinstance(st.items[0].optional_vars, ast.Name)):
+                continue
+            ce = st.items[0].context_expr
+            if not (isinstance(ce, ast.Call) and (dotted(ce.func) or '').split('.')[-1] == 'closing' and len(ce.args) == 1 and not ce.keywords):
+                continue
+            name = st.items[0].optional_vars.id
+            loads = [x for b in st.body for x in ast.walk(b) if isinstance(x, ast.Name) and x.id == name and isinstance(x.ctx, ast.Load)]
+            fors = [x for b in st.body for x in ast.walk(b) if isinstance(x, ast.For) and x.iter in loads]
+            if len(loads) != 1 or len(fors) != 1:
+                continue
+            fors[0].iter = ce.args[0]
+            j = blk.index(st)
+            blk[j:j + 1] = st.body
+            n += 1
     if n:
         ast.fix_missing_locations(fn_node)
     return n
